@@ -5,6 +5,27 @@ import callgraph
 
 SINK = re.compile(r"(send_request$|SendRequest|TcpStream::connect|build_http_sender|hyper_client::(get|send|post|build_request|read_response)|host_clients::)")
 RELAY = re.compile(r"(HttpConnectionContext|TcpConnectionContext)::send_request$")
+# repo functions that stay uninterpreted in the handler model: environment (actors, clock, logging), functions verified
+# on their own bodies by other checks, and the relay primitive itself. Every OTHER function of the crate that the handler
+# calls is inlined automatically, so moving code into a helper does not change the model.
+KEEP = re.compile(r"(SharedState::|::log$|Logger::|logger::|event_logger::|log_connection_summary$|forward_response$|"
+                  r"handle_provision_state_check_request$|(^|::)authorize$|get_access_control_rules$|send_request$|as_sig_input$|"
+                  r"compute_signature$|should_skip_sig$|empty_response$|contains_traversal_characters$|get_date_time_rfc1123_string$|"
+                  r"misc_helpers::|helpers::|::clone$|::fmt$|::to_string$|::drop$|::default$|::eq$|::ne$)")
+
+
+def make_auto_inline(cg, keep=KEEP):
+    def auto(engine, callee, caller):
+        if keep.search(callee):
+            return None
+        c = cg.resolve(callee, caller)
+        if len(c) != 1:
+            return None
+        p = next(iter(c))
+        if "{closure" in p.split("::")[-1]:
+            return None
+        return p
+    return auto
 
 
 class HPath:
@@ -128,6 +149,9 @@ class HandlerModel:
             if w[0] + "::{closure#0}" in idx.files:
                 inl.append((r"^\b$", w[0] + "::{closure#0}"))
         self.engine = ctx.engine(inline=inl, loop_bound=loop_bound)
+        self.cg = callgraph.CallGraph(idx)
+        self.cg.set_src(ctx.src)
+        self.engine.auto_inline = make_auto_inline(self.cg)
         holder = {}
 
         def mkargs(engine):
